@@ -8,6 +8,7 @@ import (
 	"sort"
 	"strconv"
 	"strings"
+	"time"
 
 	"github.com/varlink/go/varlink"
 
@@ -208,6 +209,11 @@ func (s *ProtoScenario) checkServe(k *sim.Kernel) []sim.Violation {
 		if returned == "" {
 			out = append(out, vio("serve-return", "no-return-after-shutdown", "Shutdown was called after all peers went quiet but the serving call has not returned at quiescence; stuck: %v", k.Stuck))
 		}
+	} else if s.Service.TimeoutNs > 0 && returned == "" && k.StopReason() == "quiescent" {
+		// every peer is gone (each client ends its connection at the first quiet
+		// point at the latest): the connections' resources must have been released,
+		// so the idle timeout has to end serving
+		out = append(out, vio("serve-return", "no-timeout-after-peers-gone", "the service runs with an idle timeout of %v and every client is gone, but the serving call has not returned at the end of the run (simulated time %v); stuck: %v", time.Duration(s.Service.TimeoutNs), k.Elapsed(), k.Stuck))
 	} else if s.Service.TimeoutNs == 0 && returned != "" && !s.Faulted {
 		out = append(out, vio("serve-return", "unexpected-return", "serving call returned %q without Shutdown or timeout", returned))
 	}
